@@ -25,13 +25,14 @@ PROPERTY = "C15"
 FUNCTIONS = ["evo.main_traj.run", "main_traj.load_trajectories", "to_filestem", "file_interface.read_tum_trajectory_file / read_kitti_poses_file",
              "load_transform", "lie_algebra.sim3_inverse", "PosePath3D.downsample / motion_filter / transform / project / align / align_origin",
              "trajectory.merge", "sync.associate_trajectories"]
-BOUNDS = {"quick": "1..2 trajectories + optional reference, N = 2..3 poses each, a fixed list of 19 option sets covering every option and the "
+BOUNDS = {"quick": "1..2 trajectories + optional reference, N = 2..3 poses each, a fixed list of 24 option sets covering every option and the "
                    "order-sensitive pairs", "thorough": "4 more option sets (down-sampling then motion filter, merge then time offset, origin alignment then "
                    "projection, inverted Sim(3) propagation) and 28 pairwise combinations of the processing options"}
-STUBS = ["main_traj.print_traj_info has an empty body (log formatting)", "text cells for the input files; writers captured (file I/O itself is C06/C07)", "SVD/eigh/sqrt/acos*/atan2 stubs"]
+STUBS = ["main_traj.print_traj_info has an empty body (log formatting)", "PosePath3D.align replaced by its contract as seen by the driver: an arbitrary symbolic similarity applied in the mode the flags "
+         "select (align() itself is C04; Umeyama on the driver path did not finish in 20 min)", "text cells for the input files; writers captured (file I/O itself is C06/C07)", "SVD/eigh/sqrt/acos*/atan2 stubs"]
 ASSUMPTIONS = ["valid input files"]
-OUTSIDE = ["bag I/O", "plotting", "--save_table", "full_check printing", "--align / --correct_scale wiring inside evo_traj (Umeyama on the driver path did not finish within 20 min; "
-           "align() itself is C04, its wiring in evo_ape/evo_rpe is C04/C01)", "--n_to_align", "--t_max_diff other than the default"]
+OUTSIDE = ["bag I/O", "plotting", "--save_table", "full_check printing", "the Umeyama computation inside evo_traj (stubbed by a symbolic similarity: the wiring of --align / --correct_scale is decided, "
+           "align() itself is C04)", "--n_to_align other than the default", "--t_max_diff other than the default"]
 MODS = ("evo.main_traj", "evo.tools.file_interface")
 
 
@@ -59,6 +60,11 @@ OPTSETS = {
     "origin_then_transform": dict(align_origin=True, ref=True, transform="left"),
     "project_ref_too": dict(project="xy", ref=True, n=1),
     "two_trajectories_transform": dict(transform="left", invert=True, ntraj=2),
+    "align_rigid": dict(align=True, ref=True, n=3, fmt="kitti"),
+    "correct_scale_only": dict(correct_scale=True, ref=True, n=3, fmt="kitti"),
+    "align_with_scale_then_transform": dict(align=True, correct_scale=True, ref=True, transform="right", n=3, fmt="kitti"),
+    "correct_scale_then_align_origin": dict(correct_scale=True, align_origin=True, ref=True, n=3, fmt="kitti"),
+    "correct_scale_then_align_origin_then_project": dict(correct_scale=True, align_origin=True, ref=True, project="xy", n=1, fmt="kitti"),
     "downsample_then_motion_filter": dict(downsample=2, motion_filter=True, n=3, thorough=True),
     "merge_then_t_offset": dict(merge=True, t_offset=True, ntraj=2, thorough=True),
     "origin_then_project": dict(align_origin=True, ref=True, project="xy", n=1, thorough=True),
@@ -117,6 +123,8 @@ def make_args(d, o, names, ref_name, tf_path):
         argv += ["--align_origin"]
     if o.get("align"):
         argv += ["--align"]
+    if o.get("correct_scale"):
+        argv += ["--correct_scale"]
     if o.get("transform"):
         argv += ["--transform_" + o["transform"], tf_path]
     if o.get("invert"):
@@ -137,19 +145,26 @@ def run_run(case, col):
     Ts = [SymTraj("t%d" % k, n, stamps=(fmt == "tum")) for k in range(ntraj)]
     Rf = SymTraj("ref", n, stamps=(fmt == "tum")) if o.get("ref") else None
     Tm = SymTraj("X", 1, stamps=False)
+    AL = SymTraj("AL", 1, stamps=False)          # the (stubbed) alignment result
+    zas = z3.Real("align_scale")
     zs = z3.Real("tf_scale")
     zoff, zd, za = z3.Real("t_offset"), z3.Real("mf_dist"), z3.Real("mf_angle")
     inputs = {}
     assume = []
-    for t in Ts + ([Rf] if Rf else []) + [Tm]:
+    for t in Ts + ([Rf] if Rf else []) + [Tm, AL]:
         inputs.update(t.inputs())
         assume += t.assumptions()
+    inputs.update(align_scale=zas)
+    assume.append(zas > 0)
     inputs.update(tf_scale=zs, t_offset=zoff, mf_dist=zd, mf_angle=za)
     assume += [zs > 0, zoff != 0, zd >= 0, za >= 0, za <= 180]
     if not o.get("sim3"):
         assume.append(zs == 1)
     if o.get("merge"):
         assume += [Ts[0].t[i] != Ts[1].t[j] for i in range(n) for j in range(n)]
+    extra_pin = [zs == (2 if o.get("sim3") else 1), zoff == sc.q_of(Fraction(1, 4)), zd == sc.q_of(Fraction(1, 2)), za == 10]
+    extra_pin.append(zas == 3)
+    pins = [p + extra_pin for p in common.pins_for(*(Ts + ([Rf] if Rf else []) + [Tm, AL]), n=1)]
     MT, FI, T, L, SY = S("evo.main_traj"), S("evo.tools.file_interface"), S("evo.core.trajectory"), S("evo.core.lie_algebra"), S("evo.core.sync")
 
     def write_inputs(d, vals=None):
@@ -199,14 +214,16 @@ def run_run(case, col):
         if o.get("t_offset"):
             for t in trajs.values():
                 t.timestamps = t.timestamps + SymReal(zoff)
-        if o.get("sync") or o.get("align") or o.get("align_origin"):
+        if o.get("sync") or o.get("align") or o.get("align_origin") or o.get("correct_scale"):
             for k in list(trajs):
                 if fmt == "kitti":
                     r = ref
                 else:
                     r, trajs[k] = SY.associate_trajectories(ref, trajs[k], args.t_max_diff)
-                if o.get("align"):
-                    trajs[k].align(r)
+                if o.get("align") or o.get("correct_scale"):
+                    # documented: rigid (-a), similarity (-a -s), scale only (-s); all poses (n = -1)
+                    trajs[k].align(r, correct_scale=bool(o.get("correct_scale")),
+                                   correct_only_scale=bool(o.get("correct_scale")) and not o.get("align"), n=-1)
                 if o.get("align_origin"):
                     trajs[k].align_origin(r)
         if o.get("transform"):
@@ -231,6 +248,25 @@ def run_run(case, col):
         d = tempfile.mkdtemp(prefix="evoverif_c15_", dir=os.environ.get("TMPDIR", "/tmp"))
         cwd = os.getcwd()
         saved = (FI.write_tum_trajectory_file, FI.write_kitti_poses_file, MT.print_traj_info)
+        saved_align = T.PosePath3D.align
+        align_calls = []
+
+        def stub_align(self, traj_ref, correct_scale=False, correct_only_scale=False, n=-1):
+            """Umeyama alignment replaced by its *contract as seen by the driver*: some similarity (r, t, s) that depends
+            only on the two trajectories' roles is applied in the mode the flags select (align() itself is C04).  The
+            same stub serves the driver run and the reference composition, so what is decided is the driver's wiring:
+            which trajectory, which reference, which flags, at which point of the order."""
+            align_calls.append((correct_scale, correct_only_scale, n))
+            Tz = AL.poses()[0]
+            sz = SymReal(zas)
+            if correct_only_scale:
+                self.scale(sz)
+            elif correct_scale:
+                self.scale(sz)
+                self.transform(Tz)
+            else:
+                self.transform(Tz)
+            return Tz[:3, :3], Tz[:3, 3], sz
         captured = []
         try:
             names, tfp = write_inputs(d)
@@ -243,6 +279,7 @@ def run_run(case, col):
             FI.write_tum_trajectory_file = lambda dest, traj, confirm_overwrite=False: captured.append((dest, traj))
             FI.write_kitti_poses_file = lambda dest, traj, confirm_overwrite=False: captured.append((dest, traj))
             MT.print_traj_info = lambda *a, **k: None        # info printing (path length etc.) is not the subject
+            T.PosePath3D.align = stub_align
             os.chdir(d)
             with loader.activate():
                 MT.run(args)
@@ -250,6 +287,7 @@ def run_run(case, col):
             return captured, exp_trajs, exp_ref, names, ref_name
         finally:
             FI.write_tum_trajectory_file, FI.write_kitti_poses_file, MT.print_traj_info = saved
+            T.PosePath3D.align = saved_align
             os.chdir(cwd)
             shutil.rmtree(d, ignore_errors=True)
 
@@ -280,7 +318,7 @@ def run_run(case, col):
         if [c[0] for c in captured] == [e[0] for e in exp_list]:
             for (dest, got), (_, exp) in zip(captured, exp_list):
                 g["export_%s_equals_inputs_processed_in_documented_order" % dest] = same(got, exp)
-        if not any(o.get(k) for k in ("downsample", "motion_filter", "merge", "t_offset", "sync", "align", "align_origin", "transform", "project")):
+        if not any(o.get(k) for k in ("downsample", "motion_filter", "merge", "t_offset", "sync", "align", "correct_scale", "align_origin", "transform", "project")):
             # without processing options the export is the input
             src = Ts[0]
             got = captured[0][1] if captured else None
@@ -295,7 +333,7 @@ def run_run(case, col):
                 g["export_equals_input_without_options"] = z3.And(eqs)
             else:
                 g["export_equals_input_without_options"] = z3.BoolVal(False)
-        only_transform = not any(o.get(k) for k in ("downsample", "motion_filter", "merge", "sync", "align", "align_origin", "project", "propagate"))
+        only_transform = not any(o.get(k) for k in ("downsample", "motion_filter", "merge", "sync", "align", "correct_scale", "align_origin", "project", "propagate"))
         if o.get("transform") and o.get("invert") and captured and only_transform:
             # the applied matrix is the true inverse of the loaded one: exported pose = T^-1 * P (left) / P * T^-1 (right)
             Rz = zR(Tm.q[0])
@@ -311,14 +349,21 @@ def run_run(case, col):
                     eqs += [toz(got.poses_se3[i][a, b]) == (E[a][b] if z3.is_expr(E[a][b]) else sc.q_of(Fraction(E[a][b])))
                             for a in range(3) for b in range(4)]
             g["inverted_transformation_is_the_true_inverse_of_the_loaded_matrix"] = z3.And(eqs) if eqs else z3.BoolVal(False)
-        runner.check_obligations(col, pr.ctx, g, inputs, replay, descr=case["name"], timeout_ms=120000)
+        def hook(ctx, query):
+            """generic rational witnesses (pinned inputs): a model with degenerate positions makes the real Umeyama refuse"""
+            out = []
+            for pin in pins:
+                r_, m_ = ctx.solve(list(query) + list(pin), kind="bughunt", full=True, timeout_ms=20000, groups=("def", "cons"))
+                if r_ == "sat":
+                    out.append(runner.model_values(m_, inputs))
+            return out
+        runner.check_obligations(col, pr.ctx, g, inputs, replay, descr=case["name"], timeout_ms=120000,
+                                 witness_hook=hook if (o.get("align") or o.get("correct_scale")) else None)
 
     def on_exc(pr):
-        if type(pr.exc).__name__ == "SyncException" and (o.get("sync") or o.get("align") or o.get("align_origin")):
+        if type(pr.exc).__name__ == "SyncException" and (o.get("sync") or o.get("align") or o.get("align_origin") or o.get("correct_scale")):
             return      # no matching stamps: evo_traj stops with the error and exports nothing (nothing to compare)
         col.d["harness_errors"].append(dict(ob="path", why="unexpected %s: %s" % (pr.status, pr.exc)))
-    extra_pin = [zs == (2 if o.get("sim3") else 1), zoff == sc.q_of(Fraction(1, 4)), zd == sc.q_of(Fraction(1, 2)), za == 10]
-    pins = [p + extra_pin for p in common.pins_for(*(Ts + ([Rf] if Rf else []) + [Tm]), n=1)]
     runner.explore_case(col, fn, assume, on_ok, on_exc, timeout_ms=120000, pins=pins, max_paths=300, must_reach=("ok",))
 
 
@@ -361,10 +406,12 @@ def replay_real(vals, o, Ts, Rf, Tm, n, fmt):
             MTr.run(args)
         except SystemExit:
             return False, "evo_traj exited"
+        except Exception as e:      # noqa: BLE001  (degenerate alignment input, no matching stamps, ...)
+            return False, "evo_traj stopped with %s" % type(e).__name__
         ext = ".tum" if fmt == "tum" else ".kitti"
         bad = []
         # independent expectation only for the order-sensitive, deterministic options
-        simple = not any(o.get(k) for k in ("motion_filter", "merge", "align", "sync"))
+        simple = not any(o.get(k) for k in ("motion_filter", "merge", "align", "correct_scale", "sync"))
         for k, t in enumerate(Ts):
             if o.get("merge"):
                 break
@@ -374,6 +421,42 @@ def replay_real(vals, o, Ts, Rf, Tm, n, fmt):
                 continue
             got = (FIr.read_tum_trajectory_file if fmt == "tum" else FIr.read_kitti_poses_file)(out)
             if not simple:
+                # expectation from the real core operations in the documented order (ownership rule: the operations
+                # themselves belong to C04 / C05 / C11)
+                est = copy.deepcopy(objs[k])
+                ref = copy.deepcopy(objs[-1]) if Rf else None
+                try:
+                    if o.get("downsample"):
+                        est.downsample(o["downsample"])
+                        ref and ref.downsample(o["downsample"])
+                    if o.get("motion_filter"):
+                        est.motion_filter(float(vals["mf_dist"]), float(vals["mf_angle"]), True)
+                        ref and ref.motion_filter(float(vals["mf_dist"]), float(vals["mf_angle"]), True)
+                    if o.get("t_offset"):
+                        est.timestamps += float(vals["t_offset"])
+                    if any(o.get(x) for x in ("sync", "align", "correct_scale", "align_origin")):
+                        r = ref
+                        if fmt == "tum":
+                            r, est = SYr.associate_trajectories(ref, est, args.t_max_diff)
+                        if o.get("align") or o.get("correct_scale"):
+                            est.align(r, correct_scale=bool(o.get("correct_scale")),
+                                      correct_only_scale=bool(o.get("correct_scale")) and not o.get("align"), n=-1)
+                        if o.get("align_origin"):
+                            est.align_origin(r)
+                    if o.get("transform"):
+                        M = rnp.linalg.inv(Tmat) if o.get("invert") else Tmat
+                        est.transform(M, right_mul=(o["transform"] == "right"), propagate=bool(o.get("propagate")))
+                    if o.get("project"):
+                        est.project(Tr.Plane(o["project"]))
+                except Exception as e:      # noqa: BLE001  (e.g. degenerate alignment input: evo_traj would have stopped too)
+                    bad.append("reference composition on the real operations raised %s although evo_traj exported" % type(e).__name__)
+                    continue
+                m = max(1.0, float(rnp.abs(est.positions_xyz).max()))
+                if got.num_poses != est.num_poses:
+                    bad.append("trajectory %d: %d poses exported, the documented order gives %d" % (k, got.num_poses, est.num_poses))
+                elif not rnp.allclose(got.positions_xyz, est.positions_xyz, atol=1e-7 * m * m):
+                    bad.append("trajectory %d: exported positions differ from the documented order of operations (max %.3g)" % (
+                        k, float(rnp.abs(got.positions_xyz - est.positions_xyz).max())))
                 continue
             P = [p.copy() for p in objs[k].poses_se3]
             ts = objs[k].timestamps.copy() if fmt == "tum" else None
